@@ -20,7 +20,9 @@ CHECKS = {
     "C20": dict(spec="TblErrorWire", consts={Q: {}, T: {}}, tables=[("VERIF_TABLE_ERRWIRE", "c20wire", "errwire")], cap={Q: 10**7, T: 10**7}),
     "C15": dict(spec="TblAssertion", consts={Q: {"MaxDev": 2}, T: {"MaxDev": 3}}, tables=[("VERIF_TABLE_ASSERT", "c15", "assert")], cap={Q: 10**7, T: 10**7}),
     "C14": dict(spec="TblIDToken", consts={Q: {}, T: {}}, tables=[("VERIF_TABLE_IDT", "c14", "idt")], cap={Q: 10**7, T: 10**7}),
-    "C13": dict(spec="TblAuthz", consts={Q: {}, T: {}}, tables=[("VERIF_TABLE_AUTHZ", "c13", "authz")], cap={Q: 16000, T: 10**7}),
+    "C13": dict(spec="TblAuthz", consts={Q: {}, T: {}}, tables=[("VERIF_TABLE_AUTHZ", "c13", "authz")], cap={Q: 16000, T: 10**7},
+                also=["C13RO"]),
+    "C13RO": dict(spec="TblRequestObject", consts={Q: {}, T: {}}, tables=[("VERIF_TABLE_REQOBJ", "c13ro", "reqobj")], cap={Q: 10**7, T: 10**7}),
     "C11": dict(spec="TblRedirect", consts={Q: {"Depth": 1}, T: {"Depth": 2}},
                 tables=[("VERIF_TABLE_REDIRECT", "c11", "redirect")], cap={Q: 20000, T: 10**7}),
 }
@@ -131,7 +133,17 @@ def corrupt_c20(rows, rnd):
     return out
 
 
-CORRUPT = {"c20wire": corrupt_c20, "c15": corrupt_c06, "c14": corrupt_c14, "c06hmac": corrupt_c06, "c06jwt": corrupt_c06, "c11": corrupt_c11, "c07life": corrupt_c07, "c10": corrupt_c10, "c13": corrupt_c13}
+def corrupt_c13ro(rows, rnd):
+    out = []
+    cand = [r for r in rows if r["outcome"] == "honoured"]
+    for r in rnd.sample(cand, min(3, len(cand))):
+        r = dict(r)
+        r["outcome"] = "refused"
+        out.append(r)
+    return out
+
+
+CORRUPT = {"c13ro": corrupt_c13ro, "c20wire": corrupt_c20, "c15": corrupt_c06, "c14": corrupt_c14, "c06hmac": corrupt_c06, "c06jwt": corrupt_c06, "c11": corrupt_c11, "c07life": corrupt_c07, "c10": corrupt_c10, "c13": corrupt_c13}
 ATTACHED = {"C07": "C07L"}      # decision tables that are part of a stateful check
 
 
@@ -193,6 +205,16 @@ def check(prop, tier, seed, replay=None):
         return 0
 
     nviol, cov = run(prop, prop, tier, seed, binary, wd)
+    for extra in c.get("also", []):      # further decision specifications of the same property
+        ev, ecov = run(extra, prop, tier, seed, binary, wd)
+        nviol += ev
+        cov["tables"] += ecov["tables"]
+        cov["samples"] += ecov["samples"]
+        for k in ("evaluations", "distinct_nontrivial", "states", "transitions", "traces_validated_against_impl", "selftest_corruptions_rejected"):
+            cov[k] += ecov[k]
+        cov["exhaustive"] = cov["exhaustive"] and ecov["exhaustive"]
+        cov.setdefault("more_specs", []).append({"spec": ecov["spec"], "tlc_table_generation_s": ecov["tlc_table_generation_s"]})
+        cov["violation_replays"] += ecov["violation_replays"]
     if prop == "C20":   # second half: nothing handed to storage is a usable secret
         sv, scov = storage_events_part(prop, binary, wd)
         nviol += sv
